@@ -340,8 +340,9 @@ def run(pid, tier, seed, args, sw):
         "assumptions": prop.assumptions,
         "wall_s": sw.s(), "violations": len(violations) + (1 if rc and not violations else 0),
     }
-    os.makedirs(os.path.join(VERIF, "evidence"), exist_ok=True)
-    json.dump(ev, open(os.path.join(VERIF, "evidence", pid + ".json"), "w"), indent=1, default=str)
+    if not args.no_lean and not args.replay:
+        os.makedirs(os.path.join(VERIF, "evidence"), exist_ok=True)
+        json.dump(ev, open(os.path.join(VERIF, "evidence", pid + ".json"), "w"), indent=1, default=str)
     print("%s %s seed=%d: %d theorems (%d discharged), %d scenarios / %d ops, %d divergences, %d violations, "
           "%d known, %.1fs" % (pid, tier, seed, len(names), len(discharged), len(scns), ops, len(divergences),
                                len(violations), sum(len(v) for v in known_hits.values()), sw.s()))
